@@ -15,8 +15,7 @@ Definition env_of (base : fenv) (name : string) (fuel : nat) : fenv := env_in_wi
 (* [base] is the environment of external functions (oracles) under the program;
    the statements about [call] are the instances with [no_fns] *)
 Ltac link_step name f := rewrite (call_env_with src_pure _ name f eq_refl eq_refl).
-Ltac callee caller name g :=
-  rewrite (env_call_with src_pure _ caller name g eq_refl eq_refl eq_refl eq_refl eq_refl).
+Ltac callee caller name g := rewrite (env_call_with2 src_pure _ caller name g eq_refl eq_refl).
 
 (* ---------------------------------------------------------------- the table *)
 
